@@ -54,4 +54,40 @@ CHECKS = {
         "note": COMMON_NOTE + "The task-loop model behind c02_shear_equal is tied to the code by the exact oracle check (and by C04's task-list correspondence).",
         "technique": "Lean 4 HasDerivAt calculus + induction over task lists; differential correspondence; mpmath oracle",
     },
+    "C07": {
+        "text": "Model of _calculate_compliances + CijVolumeBaseInterface (assembly key by key, attribute lookups, six averages, mass, v_p, v_s) "
+                "polymorphic in the scalar; numpy.linalg.inv is a parameter S constrained by C.S=1. Proved over R for every key order / subset "
+                "containing the nine orthotropic keys / grid: the assembled 6x6 is the symmetric fill and the Voigt matrix of tensorOf; "
+                "K_V=C_iijj/9, G_V=(3C_ijij-C_iijj)/30, K_R=1/S_iijj, G_R=15/(6S_ijij-2S_iijj); S_ijkl with 1,1/2,1/4 factors is the fourth-rank "
+                "inverse; Hill=means; 0<K_R<=K_VRH<=K_V and 0<G_R<=G_VRH<=G_V for positive-definite C (Cauchy-Schwarz in the C inner product, "
+                "bulk direction and all five deviatoric directions); rho v_s^2=G_VRH, rho v_p^2=K_VRH+4G_VRH/3 with rho=m[g/mol]/1000/(N_A V), "
+                "km/s. Real classes run on a stub and compared with the Float model on random SPD fields per crystal system; independent "
+                "einsum/CODATA oracle.",
+        "note": COMMON_NOTE + "numpy.linalg.inv, pint's Ry factor and scipy's N_A are parameters (|C.S-1| and the constants measured every run). "
+                "Regression input of fix 1b22ce6 (s12=0) replayed from corpus/C07.",
+        "technique": "Lean 4 theorems over R (Mathlib Matrix, discriminant/Cauchy-Schwarz, decide +kernel key tables) + differential correspondence on a stub calculator + einsum oracle",
+    },
+    "C15": {
+        "text": "Content of every output file proved on the model of ResultsWriter/write_table/qha writers for all scalars, grids, arrays and "
+                "component lists: rows = T_MIN+k*DT (last four guard rows dropped, for every NT), columns = requested pressures (GPa) or grid "
+                "volumes (A^3), values = unit factor x in-memory; registry = last rule wins; on the rules re-translated from writer_rules.yml "
+                "(decide +kernel): every keyword resolves, aliases -> same rule -> identical files, cij/cij_s -> modulus_adiabatic, cij_t -> "
+                "modulus_isothermal, documented names/units, all 104 producible file names distinct, one file per component. The real "
+                "ResultsWriter is run for every keyword and alias x both bases x random grids/components (stub bases with the real write_table, "
+                "and bases of a real Calculator), files re-read and compared with the model (1e-14) and with an independent oracle "
+                "(CODATA factors, documented names). Partial: fname override on tensor keywords is a recorded finding; printed precision tested.",
+        "note": COMMON_NOTE + "pint factors are model inputs measured on every run; labels are compared at pandas' printed precision (6 decimals).",
+        "technique": "Lean 4 theorems (induction over lists, ring identities, decide +kernel on translated rules) + differential correspondence on real files + independent oracle",
+    },
+    "C19": {
+        "text": "Proved on the model of cij/cli/extract.py and geotherm.py over any ordered field: argmin|x-y| returns a nearest index, first on ties; "
+                "-T returns that row labelled by pressures, -P that column labelled by temperatures; the printed table has one column per "
+                "variable taken from that variable's own file (glob prefix matches exactly one writer-produced name, decide +kernel on the "
+                "translated rules); extract-geotherm = geotherm columns unchanged + spline(T-column, P-column) per variable, which at a grid "
+                "node is the table entry (T/P not transposed) given the spline's interpolation contract. The real click commands are run on "
+                "directories written by the real writer and compared with model and a numpy oracle; between nodes the error against a known "
+                "smooth function must shrink under refinement. Partial: spline convergence is monitored, not proved.",
+        "note": COMMON_NOTE + "RectBivariateSpline and DataFrame.to_string are external (contract measured at nodes; stdout parsed at display.precision 17).",
+        "technique": "Lean 4 theorems (first-minimum invariant, list/dict lemmas, decide +kernel) + differential correspondence through click.testing.CliRunner + independent numpy oracle",
+    },
 }
